@@ -109,8 +109,12 @@ func lnClass(err error) string {
 	}
 	s := err.Error()
 	switch {
+	case strings.Contains(s, "VM panic"): // recovered inside the supervisor and returned as an error (seen for templates of an account without plasma)
+		return "refused-other"
 	case strings.Contains(s, "panic"):
 		return "panic"
+	case strings.Contains(s, "plasma"): // outside the ledger model (C12)
+		return "refused-other"
 	case strings.Contains(s, "already received"), strings.Contains(s, "already-received"):
 		return "refused"
 	case strings.Contains(s, "from-block"), strings.Contains(s, "from block"), strings.Contains(s, "sequencer"), strings.Contains(s, "receiver"),
@@ -562,7 +566,11 @@ func ledgerNodeHistory(c *Ctx, id int) {
 				Amount: big.NewInt(int64(1 + c.R.Intn(900)))}, "user-send")
 		case x < 28: // call to a contract: fuse (applied), cancel of an unknown entry (fails), stake cancel of an unknown id (fails)
 			var tpl *nom.AccountBlock
-			switch c.R.Intn(3) {
+			switch c.R.Intn(4) {
+			case 3: // U2 cancels the fusion the mock genesis gives it (no expiration): applied, the QSR come back as a descendant send
+				u = g.User2.Address
+				tpl = &nom.AccountBlock{BlockType: nom.BlockTypeUserSend, Address: u, ToAddress: types.PlasmaContract,
+					Data: definition.ABIPlasma.PackMethodPanic(definition.CancelFuseMethodName, types.HexToHashPanic("3d3179e499f839b47c60216b57f79e41264d408e2f21aa6f5462f25d5e094924"))}
 			case 0:
 				tpl = &nom.AccountBlock{BlockType: nom.BlockTypeUserSend, Address: u, ToAddress: types.PlasmaContract, TokenStandard: types.QsrTokenStandard,
 					Amount: big.NewInt(int64(10+c.R.Intn(5)) * g.Zexp), Data: definition.ABIPlasma.PackMethodPanic(definition.FuseMethodName, r.users[c.R.Intn(len(r.users))])}
@@ -657,8 +665,10 @@ func ledgerNodeHistory(c *Ctx, id int) {
 			pl := r.pooled(a)
 			k := c.R.Intn(len(pl))
 			old := pl[k]
+			// the competitor acknowledges the frontier momentum, as every block of this stream does: the verifier reads the
+			// confirmed state AS OF the acknowledged momentum (a block acknowledging an older one sees fewer confirmed sends)
 			nb := &nom.AccountBlock{Version: 1, ChainIdentifier: old.ChainIdentifier, BlockType: nom.BlockTypeUserSend, Address: a, Height: old.Height,
-				PreviousHash: old.PreviousHash, MomentumAcknowledged: old.MomentumAcknowledged, ToAddress: r.users[c.R.Intn(len(r.users))],
+				PreviousHash: old.PreviousHash, MomentumAcknowledged: f.ch.GetFrontierMomentumStore().Identifier(), ToAddress: r.users[c.R.Intn(len(r.users))],
 				TokenStandard: types.ZnnTokenStandard, Amount: big.NewInt(int64(1 + c.R.Intn(900))), FusedPlasma: 21000}
 			what := "competitor-send"
 			if c.R.Intn(3) == 0 { // a competing receive
@@ -683,6 +693,19 @@ func ledgerNodeHistory(c *Ctx, id int) {
 				aerr = fmt.Errorf("panic: %s", firstLine(p))
 			}
 			r.note = what
+			if nb.Hash == old.Hash && aerr == nil {
+				// the "competitor" is the pooled block itself (a receive of the same send on the same predecessor): re-delivery
+				// of a known block is answered with success and changes nothing ("account-block is already inserted")
+				aerr = r.addTx(tx, c.R.Intn(2) == 0)
+				after := r.pooled(a)
+				if aerr != nil || len(after) != len(pl) {
+					r.fail("re-delivery of the pooled block %s/%d: error %v, pool of the account %d -> %d blocks", addrName(a), old.Height, aerr, len(pl), len(after))
+					break
+				}
+				c.Emit("LN-same %d %s | ok", k, lnEvent(nb))
+				c.Hit("competitor-identical-redelivered")
+				break
+			}
 			if aerr == nil {
 				force := c.R.Intn(2) == 0
 				aerr = r.addTx(tx, force)
